@@ -28,7 +28,8 @@ RULE = ("table = packed structured dtype of 1-8 fields (i1..u8, f4, f8, bool, c8
         ">4096 bytes of rows. Distinct = distinct case JSON."
         " Tables (shared generator): byte order per table or independently per field; one table in thirty has a wide field (string of 255..70001 bytes or a sub-array of 1100..9000 numbers), one binary table in forty a total size next to 4 KiB..3 MiB; user headers may carry reserved underscore names in any case (they need not survive, the table must).")
 ASSUMPTIONS = [
-    "1-d arrays with at least one row; packed dtypes (no padding/offsets); header keys are str",
+    "arrays with at least one row, 1-d or (layout 2d) 2-/3-d arrays of records whose C-order sequence of records is "
+    "the table that reading returns; packed dtypes (no padding/offsets); header keys are str",
     "header floats are finite (NaN/inf are not Python literals that eval() back)",
 ]
 TECHNIQUE = "property-based round-trip testing (Hypothesis): bit-level write/read/inspect-file oracle over generated dtypes, values, headers and entry points"
@@ -46,7 +47,7 @@ def _cases(entries, with_header):
     def strat(draw):
         t = draw(T.tables(kind="binary", allow_mixed_order=True, sizes=True))
         case = {"table": t, "entry": draw(st.sampled_from(entries)),
-                "layout": draw(st.sampled_from(["contig", "contig", "contig", "contig", "strided", "offset"]))}
+                "layout": draw(st.sampled_from(["contig", "contig", "contig", "contig", "strided", "offset", "2d", "2d-T"]))}
         if with_header:
             case["header"] = draw(H.headers())
         return case
@@ -65,6 +66,16 @@ def _input_array(case):
         big = np.zeros(data.size + 3, dtype=data.dtype)
         big[2:2 + data.size] = data
         return big[2:2 + data.size], data
+    if case["layout"] in ("2d", "2d-T"):
+        # a table held as a 2-d (or 3-d) array of records: its records, in C order, are the rows of the file
+        n = data.size
+        a = next((k for k in (2, 3, 5, 7) if n % k == 0 and n > k), 1)
+        shape = (a, n // a) if n % 2 else (a, n // a, 1)
+        arg = data.reshape(shape)
+        if case["layout"] == "2d-T":
+            arg = np.ascontiguousarray(arg.T).T          # same logical array, Fortran memory order
+            assert arg.shape == shape
+        return arg, data
     return data, data
 
 
